@@ -279,6 +279,6 @@ pub fn def() -> PropDef {
         level: "fault_enumeration",
         rule: "the case index enumerates bound socket type (9) x transport {tcp, ipc} x staller behaviour {stop sending, close, switch to garbage} x every byte offset 0..=N of greeting+READY at which the first staller acts; 0..2 further stallers with drawn offsets/behaviours; well-behaved clients connect before, during (after each staller) and after, an established peer exchanges traffic before and after; first undisturbed, then under drawn transport/schedule; judged at quiescence: every well-behaved client was admitted and exchanged a message, established traffic continues, exactly one AcceptFailed event per handshake that failed and none for silent stallers; distinct = distinct (cell, plan, schedule, transport)",
         assumptions: &["REQ is judged with a single well-behaved client (its rotation would otherwise send the probe to another admitted peer)", "a staller that has sent the complete greeting+READY is a well-behaved silent peer, not a failure"],
-        strata: vec![Stratum { name: "stallers", quick: 54 * n + 60_000, thorough: 54 * n * 100, exhaustive: (false, false), run: stallers, what: "stallers at every handshake byte offset, good clients before/during/after" }],
+        strata: vec![Stratum { name: "stallers", quick: 54 * n + 60_000, thorough: (54 * n * 100) * 20, exhaustive: (false, false), run: stallers, what: "stallers at every handshake byte offset, good clients before/during/after" }],
     }
 }
